@@ -873,9 +873,20 @@ func run(c *core.Case) {
 		return
 	}
 
-	// the construction of XEP-0115 5.1
-	if allTyped {
+	// the construction of XEP-0115 5.1; a form without a FORM_TYPE field
+	// contributes the empty FORM_TYPE value and its '<' (step 7.1 is taken for
+	// every form), so a form without any fields contributes exactly "<"
+	{
 		c.Count("reference_comparisons", 1)
+		if !allTyped {
+			c.Count("reference_comparisons_with_a_form_without_FORM_TYPE", 1)
+		}
+		for _, f := range gen.Forms {
+			if len(f.Fields) == 0 {
+				c.Count("reference_comparisons_with_a_form_without_fields", 1)
+				break
+			}
+		}
 		if want := refHash(gen, mo.ref()); h0 != want {
 			mo.violate("caps:ref", "%s: Hash = %q on the value with every list already in order, XEP-0115 5.1 gives %q for S = %q; value %+v", mo.hh, h0, want, refString(gen), base)
 			return
@@ -941,6 +952,73 @@ func run(c *core.Case) {
 					return
 				}
 			}
+		}
+	}
+
+	// zero, one and two forms without fields: each is one more "<" in S, built
+	// directly and decoded (identical forms cannot be told apart, so their order
+	// does not matter)
+	if len(failed) == 0 && r.Intn(3) == 0 {
+		var rest model = gen.clone()
+		rest.Forms = nil
+		for _, f := range gen.Forms {
+			if len(f.Fields) > 0 {
+				rest.Forms = append(rest.Forms, f)
+			}
+		}
+		seen := map[string]int{}
+		for k := 0; k <= 2; k++ {
+			m := rest.clone()
+			for i := 0; i < k; i++ {
+				m.Forms = append(m.Forms, frm{})
+			}
+			m.Forms = shuffled(r, m.Forms)
+			want := refHash(m, mo.ref())
+			c.Count("empty_form_count_comparisons", 1)
+			vals := []disco.Info{direct(m)}
+			routes := []string{"direct"}
+			doc := document(m, r, false)
+			if v, ok := mo.unmarshal(doc); ok {
+				vals, routes = append(vals, v), append(routes, "unmarshalled")
+			}
+			if mo.dead {
+				return
+			}
+			for i, v := range vals {
+				h, alive := mo.hashOf(v, tcase{Hash: mo.hh.String(), Route: routes[i], Arrangement: fmt.Sprintf("%d forms without fields added", k), Value: m, Document: doc})
+				if !alive {
+					return
+				}
+				if h != want {
+					mo.violate("caps:ref:forms-without-fields", "%s: Hash = %q on the %s value with %d forms without fields, XEP-0115 5.1 gives %q for S = %q; value %+v", mo.hh, h, routes[i], k, want, refString(m), m)
+					return
+				}
+				seen[h]++
+			}
+		}
+		if len(seen) != 3 {
+			mo.violate("caps:ref:forms-without-fields", "%s: the values with zero, one and two forms without fields have only %d different verification strings; value %+v", mo.hh, len(seen), rest)
+			return
+		}
+	}
+
+	// lifetime sequences (lifetime.go): built directly and decoded
+	if len(failed) == 0 {
+		a := gen.clone()
+		a.Feats = shuffled(r, a.Feats)
+		want := refHash(gen, mo.ref())
+		if !mo.lifetime(r, direct(a), a, "directly built", want, true) {
+			return
+		}
+		doc := document(a, r, false)
+		if v, ok := mo.unmarshal(doc); ok && sameContent(extract(v), a) {
+			c.Count("lifetime_sequences_on_decoded_values", 1)
+			if !mo.lifetime(r, v, a, "decoded", want, true) {
+				return
+			}
+		}
+		if mo.dead {
+			return
 		}
 	}
 
@@ -1035,8 +1113,14 @@ func run(c *core.Case) {
 				return
 			}
 			// the peer's reply against XEP-0115 5.1 computed from the raw document
-			if allTyped {
+			{
 				c.Count("reference_comparisons_decoded", 1)
+				for _, f := range raw.Forms {
+					if len(f.Fields) == 0 {
+						c.Count("reference_comparisons_decoded_with_a_form_without_fields", 1)
+						break
+					}
+				}
 				if want := refHash(raw, mo.ref()); hu != want {
 					cause := "other"
 					if emptyValue {
@@ -1128,6 +1212,10 @@ func Prop() *core.Prop {
 		"values_with_non_ascii_text", "reference_comparisons", "permutations_identities", "permutations_features", "permutations_forms",
 		"permutations_fields", "permutations_values", "permutations_combined", "values_unmarshalled", "values_from_GetInfo", "decoded_values_with_an_empty_value", "reference_comparisons_decoded", "malformed_values", "malformed_values_unmarshalled",
 		"hash_calls", "appendhash_calls",
+		"reference_comparisons_with_a_form_without_FORM_TYPE", "reference_comparisons_with_a_form_without_fields", "reference_comparisons_decoded_with_a_form_without_fields",
+		"empty_form_count_comparisons",
+		"lifetime_sequences", "lifetime_sequences_on_decoded_values", "lifetime_sequences_with_empty_value_before_nonempty_value", "lifetime_ops",
+		"lifetime_op_xml.Marshal", "lifetime_op_Info.TokenReader", "lifetime_op_Info.WriteXML", "lifetime_op_copy", "lifetime_op_form.Data.TokenReader", "lifetime_op_form.Data.Submit", "lifetime_op_xml.Marshal(form)", "lifetime_op_form.Data.accessors",
 		"shared_backing_sequences", "shared_backing_sequences_with_unsorted_shared_features", "shared_view_hashes", "caller_visible_rechecks", "concurrent_shared_value_hashes", "concurrent_shared_view_hashes",
 		"concurrent_cases", "concurrent_hashes", "concurrent_cases_with_overlapping_goroutines", "concurrent_cases_with_4_or_more_goroutines_at_once", "concurrent_cases_with_gomaxprocs_ge_4",
 	}
@@ -1146,7 +1234,7 @@ func Prop() *core.Prop {
 		Assumptions: []string{
 			"the reference implementation in props/c20 is XEP-0115 5.1 with i;octet ordering; it reproduces the two worked examples of the XEP (checked at start-up, otherwise the run is inconclusive)",
 			"permutation invariance is demanded of values that are sets: identities distinct in (category, type, lang), field names distinct inside a form, FORM_TYPE hidden and single-valued or absent, forms pairwise distinguishable by FORM_TYPE; the values of a FORM_TYPE field are never permuted",
-			"equality with XEP-0115 5.1 is demanded only when every form carries a FORM_TYPE (5.1 does not say what to do otherwise)",
+			"XEP-0115 5.1 step 7.1 (append the FORM_TYPE value and '<') is taken for every form; a form without a FORM_TYPE field has the empty value, so a form without fields contributes exactly \"<\" and zero, one and two such forms hash differently",
 			"a fresh hash.Hash is passed to every call; a destination is 'empty' when its length is 0 (nil, []byte{}, or spare capacity only)",
 			"the library side always gets its hash.Hash from the library (crypto.Hash.New on a value obtained from the exported constant, crypto.Parse or a decoded <c hash=.../> element); the reference side picks its constructor by algorithm name without the library: crypto/sha1, crypto/sha256 and crypto/sha512 directly, and for sha3 the implementation the Go distribution registers with crypto.RegisterHash",
 			"hash functions covered are the seven that are linked into the harness without changing harness/go.mod (sha-1, sha-224, sha-256, sha-384, sha-512, sha3-256, sha3-512); blake2b256/blake2b512 need golang.org/x/crypto as a direct and golang.org/x/sys as an indirect requirement of the harness module (build tag verif_xcrypto links them) and are counted as hash_not_linked",
